@@ -15,7 +15,7 @@ import vlib, sesslib
 hx = vlib.hexs
 WRAPS = sesslib.WRAPS + ["psSha256Init", "psSha256Update", "psSha384Init", "psSha384Update", "psMd5Sha1Init", "psMd5Sha1Update", "prf", "prf2",
                          "psHkdfExtract", "psHkdfExpandLabel", "psSign", "psVerify", "psVerifySig", "matrixSslNewClientSession",
-                         "matrixSslNewServerSession", "matrixSslReceivedData", "matrixSslProcessedData", "matrixSslEncodeToOutdata", "matrixSslGetOutdata"]
+                         "matrixSslNewServerSession", "matrixSslLoadTls13Psk", "matrixSslReceivedData", "matrixSslProcessedData", "matrixSslEncodeToOutdata", "matrixSslGetOutdata"]
 
 # suite -> (cipher, keylen, maclen, prf hash): only used to ORGANISE the runs (which hash context to read, CBC vs AEAD
 # tokens); every value that is compared comes from the extracted spec
@@ -99,12 +99,32 @@ def scenarios(ck, table):
     add("tls13/1303/psk", "cv=4 sv=4 suite=1303 ticket=1 grp=29", "cv=4 sv=4 suite=1303 ticket=1 grp=29 resume=1 keepkeys=1")
     add("tls13/1301/psk-hrr", "cv=4 sv=4 suite=1301 ticket=1", "cv=4 sv=4 suite=1301 ticket=1 resume=1 keepkeys=1 grp=24,23 shares=1 sgrp=23")
     add("tls13/1302/psk-hrr", "cv=4 sv=4 suite=1302 ticket=1", "cv=4 sv=4 suite=1302 ticket=1 resume=1 keepkeys=1 grp=24,23 shares=1 sgrp=23")
+    # PSK offered but not selected, external PSKs (psk_dhe_ke; psk_ke is never chosen between two MatrixSSL peers), both hash sizes.
+    # spsk=0: the server has no PSK, spsk=2: another one; rotate=1: the server replaced its ticket keys -> resumption PSK declined
+    for s_, kl in ((0x1301, ""), (0x1302, " psklen=48"), (0x1303, "")):
+        add("tls13/%04x/extpsk" % s_, "cv=4 sv=4 suite=%04x psk=1%s" % (s_, kl))
+        add("tls13/%04x/extpsk-declined" % s_, "cv=4 sv=4 suite=%04x psk=1 spsk=0%s" % (s_, kl))
+        add("tls13/%04x/psk-declined" % s_, "cv=4 sv=4 suite=%04x ticket=1" % s_, "cv=4 sv=4 suite=%04x ticket=1 resume=1 keepkeys=1 rotate=1" % s_)
+    add("tls13/1301/extpsk-declined-other", "cv=4 sv=4 suite=1301 psk=1 spsk=2")
+    add("tls13/1302/extpsk-declined-other", "cv=4 sv=4 suite=1302 psk=1 spsk=2 psklen=48")
+    add("tls13/1301/extpsk-hrr", "cv=4 sv=4 suite=1301 psk=1 grp=24,23 shares=1 sgrp=23")
+    add("tls13/1302/extpsk-hrr", "cv=4 sv=4 suite=1302 psk=1 psklen=48 grp=23,29 shares=1 sgrp=29")
+    add("tls13/1301/extpsk-declined-hrr", "cv=4 sv=4 suite=1301 psk=1 spsk=0 grp=24,23 shares=1 sgrp=23")
+    add("tls13/1302/extpsk-declined-hrr", "cv=4 sv=4 suite=1302 psk=1 spsk=0 psklen=48 grp=24,23 shares=1 sgrp=23")
+    add("tls13/1301/psk-declined-hrr", "cv=4 sv=4 suite=1301 ticket=1", "cv=4 sv=4 suite=1301 ticket=1 resume=1 keepkeys=1 rotate=1 grp=24,23 shares=1 sgrp=23")
+    add("tls13/1301/extpsk-cauth-declined", "cv=4 sv=4 suite=1301 psk=1 spsk=0 cauth=1 scb=1")
+    # a PSK whose length is not the hash length of its suite: MatrixSSL treats it as incompatible -> must be declined cleanly
+    add("tls13/1302/extpsk-len32", "cv=4 sv=4 suite=1302 psk=1")
+    add("tls13/1301/extpsk-len48", "cv=4 sv=4 suite=1301 psk=1 psklen=48")
+    add("tls12/c02f/ticket-declined", "cv=3 sv=3 suite=c02f ticket=1", "cv=3 sv=3 suite=c02f ticket=1 resume=1 keepkeys=1 rotate=1")
     if ck.tier == "thorough":
         for sd in range(2, 7):
             for s in t12: add("tls12/%04x/seed%d" % (s, sd), "cv=3 sv=3 suite=%04x%s seed=%d" % (s, " key=ec" if s in EC_SUITES else "", seed + sd))
             for s in (0x1301, 0x1302, 0x1303):
                 for g in (23, 24, 29): add("tls13/%04x/g%d/seed%d" % (s, g, sd), "cv=4 sv=4 suite=%04x grp=%d seed=%d" % (s, g, seed + sd))
                 add("tls13/%04x/cauth/seed%d" % (s, sd), "cv=4 sv=4 suite=%04x cauth=1 scb=1 seed=%d" % (s, seed + sd))
+                add("tls13/%04x/extpsk-declined/seed%d" % (s, sd), "cv=4 sv=4 suite=%04x psk=1 spsk=0%s seed=%d" % (s, " psklen=48" if s == 0x1302 else "", seed + sd))
+                add("tls13/%04x/extpsk/seed%d" % (s, sd), "cv=4 sv=4 suite=%04x psk=1%s seed=%d" % (s, " psklen=48" if s == 0x1302 else "", seed + sd))
                 add("tls13/%04x/psk/seed%d" % (s, sd), "cv=4 sv=4 suite=%04x ticket=1 seed=%d" % (s, seed + sd), "cv=4 sv=4 suite=%04x ticket=1 resume=1 keepkeys=1 seed=%d" % (s, seed + sd + 50))
     out = []
     for name, sess in S:
@@ -263,7 +283,7 @@ class Sess:
         if self.ver == 4:
             hl = 48 if self.hash == "sha384" else 32
             for e in self.d.ev:
-                if e[0] == "L" and len(e) > 8: add(site_of_expand(e, True), "" if e[5] == "-" else e[5])
+                if e[0] == "L" and len(e) > 8: add(site_of_expand(e, bool(getattr(self, "isres", 1))), "" if e[5] == "-" else e[5])
             # psVerify input: 64 x 0x20, context string, 0, transcript hash; which CertificateVerify it belongs to is read off
             # the transcript hash (each side also re-verifies the signature it has just made)
             Hf = hashlib.sha384 if hl == 48 else hashlib.sha256
@@ -443,15 +463,27 @@ class Sess:
         ch = msgs[shi - 1]
         exc = hello_exts(ch) or {}
         # PSK: the input key material of the Early Secret extraction; (EC)DHE: that of the Handshake Secret extraction
+        # OFFERED = the last ClientHello carries pre_shared_key; its value is the input key material of the client's first
+        # Early Secret extraction.  Whether it is SELECTED is read off the ServerHello by the spec (and here, for bookkeeping)
         psk = None; isres = 0; blen = 0
-        if kv.get("c.psk") == "1":
-            vals = set(e[5] for side, e in self.role_vals(("X",), "tls13EarlySecretSha384" if hl == 48 else "tls13EarlySecret") if e[5].strip("0"))
-            if len(vals) != 1: self.problems.append("PSK of the two peers differs / not captured (%d values)" % len(vals)); return
-            psk = vals.pop(); isres = 1
-            if 41 not in exc: self.problems.append("PSK in use but no pre_shared_key extension"); return
+        esrole = "tls13EarlySecretSha384" if hl == 48 else "tls13EarlySecret"
+        news = re.findall(r"new ([^;|]*)", self.script); depth = 0; pv = self.prev
+        while pv is not None: depth += 1; pv = pv.prev
+        cfg = news[depth] if depth < len(news) else ""
+        self.offered = 41 in exc
+        self.selected = 41 in (hello_exts(msgs[shi]) or {})
+        if self.offered:
+            vals = [e[5] for side, e in self.role_vals(("X",), esrole) if side == "c" and e[5].strip("0")]
+            if not vals or len(set(vals)) != 1: self.problems.append("the client offered a PSK but its value was not captured (%d values)" % len(set(vals))); return
+            psk = vals[0]; isres = 1 if ("resume=1" in cfg and "psk=1" not in cfg) else 0
+            svals = set(e[5] for side, e in self.role_vals(("X",), esrole) if side == "s" and e[5].strip("0"))
+            if self.selected and svals != {psk}: self.problems.append("the server selected a PSK but extracted its Early Secret from %s" % (sorted(svals) or "zeros"))
             e41 = exc[41]; il = int.from_bytes(e41[:2], "big"); blen = 2 + int.from_bytes(e41[2 + il:4 + il], "big")
             if not ch.endswith(e41): self.problems.append("pre_shared_key is not the last extension")
             self.binder_wire = ch[-hl:].hex()
+        elif self.selected: self.problems.append("ServerHello selects a PSK that was not offered"); return
+        if (kv.get("c.psk") == "1") != self.selected or (kv.get("s.psk") == "1") != self.selected:
+            self.problems.append("tls13UsingPsk (client %s, server %s) disagrees with the ServerHello (pre_shared_key %s)" % (kv.get("c.psk"), kv.get("s.psk"), "present" if self.selected else "absent"))
         ecd = set(e[5] for side, e in self.role_vals(("X",), "tls13HandshakeSecret"))
         if len(ecd) != 1: self.problems.append("(EC)DHE shared secrets of the peers differ / not captured"); return
         ecdhe = ecd.pop()
@@ -501,14 +533,24 @@ class Sess:
             if napp == 0 and self.stream[side]: self.problems.append("no application record from %s" % side)
         self.recs_expect = exp
         self.line = "hs13 %04x %s %d %s %d %s %s" % (self.suite, psk or "-", isres, ecdhe, blen, joinm(msgs), " ".join(toks))
-        self.psk = psk
+        self.psk = psk; self.isres = isres
         # comparisons by role (destination field of each logged derivation, both peers)
         C = self.cmp
         def role(name, key, kinds=("L", "X")):
             vs = self.role_vals(kinds, name)
             if not vs and key not in ("binder_key", "c_e", "c_e_key", "c_e_iv"): self.problems.append("no derivation into %s was logged" % name)
             for side, e in vs: C.append(("%s %s" % (side, name), ev_out(e), key))
-        role("tls13EarlySecretSha384" if hl == 48 else "tls13EarlySecret", "early")
+        # Early Secret: what each side holds LAST (when it extracts the Handshake Secret) is Early(selected PSK or 0); what it
+        # held before may also be Early(offered PSK) (binders, early data)
+        for sd in "cs":
+            vs = [e for side, e in self.role_vals(("X",), esrole) if side == sd]
+            if not vs: self.problems.append("%s: no Early Secret extraction was logged" % sd)
+            for e in vs[:-1]: C.append(("%s %s (before the ServerHello)" % (sd, esrole), ev_out(e), "early|early_off"))
+            for e in vs[-1:]: C.append(("%s %s (the one in force for the Handshake Secret)" % (sd, esrole), ev_out(e), "early", "derive:tls13/%04x/early-secret" % self.suite))
+        # ... and the salt actually fed to the Handshake Secret extraction is Derive-Secret(that Early Secret, "derived", "")
+        for side, e in self.role_vals(("X",), "tls13HandshakeSecret"):
+            C.append(("%s salt of the Handshake Secret extraction = Derive-Secret(Early Secret of the selected PSK, \"derived\")" % side, e[4], "hs_salt",
+                      "derive:tls13/%04x/early-secret-for-handshake-secret" % self.suite))
         if psk:
             role("tls13ExtBinderSecret", "binder_key")
             C.append(("PSK binder in the ClientHello", self.binder_wire, "binder"))
@@ -608,7 +650,7 @@ def openssl_smoke(ck):
 
 
 CAPTURE_SCEN = ["cv=3 sv=3 suite=c02f", "cv=3 sv=3 suite=c02f ems=-1", "cv=2 sv=2 suite=c013", "cv=4 sv=4 suite=1301 cauth=1 scb=1",
-                "cv=4 sv=4 suite=1302 ticket=1 | cv=4 sv=4 suite=1302 ticket=1 resume=1 keepkeys=1"]
+                "cv=4 sv=4 suite=1302 ticket=1 | cv=4 sv=4 suite=1302 ticket=1 resume=1 keepkeys=1", "cv=4 sv=4 suite=1301 psk=1"]
 def capture_labels(ck, h):
     """{site: [label hex]} observed on a handful of sessions, written to a JSON file for tools/srcgen/gen_tls_labels.py"""
     import json
@@ -655,6 +697,35 @@ def run(ck):
                     "entropy pinned per seed; a case is one derived value / record / signed content compared between library (by destination role) and extracted spec")
 
 
+def partial13_check(ck, drv, s, name, script, applist):
+    """a TLS 1.3 session that did not complete: if both hellos were exchanged, the Early Secret each side fed into its
+    Handshake Secret must still be the one of the PSK the ServerHello selects (all-zero PSK when it selects none)"""
+    d = s.d
+    for ctx, sha3, hl in (("tls13msgHashSha256", 0, 32), ("tls13msgHashSha384", 1, 48)):
+        segs = d.stream("c." + ctx)
+        if not segs: continue
+        msgs = split_msgs(segs[-1]) if len(segs) == 1 else None
+        if len(segs) == 2:
+            m2 = split_msgs(segs[1]); ch1 = split_msgs(segs[0])
+            msgs = (ch1 + m2[1:]) if m2 and ch1 and m2[0][0] == 254 else None
+        if not msgs: continue
+        shi = [i for i, m in enumerate(msgs) if m[0] == 2 and m[6:38] != HRR_RANDOM]
+        if not shi: continue
+        sh = msgs[shi[0]]; suite = int.from_bytes(sh[39 + sh[38]:41 + sh[38]], "big")
+        if (SUITES.get(suite, ("", 0, 0, ""))[3] == "sha384") != bool(sha3): continue
+        esrole = "tls13EarlySecretSha384" if hl == 48 else "tls13EarlySecret"
+        offered = [e[5] for e in d.ev if e[0] == "X" and field(e[3]) == esrole and e[3][0] == "c" and e[5].strip("0")]
+        out = parse_out(ck.run_lines(drv, ["es13 %d %s %s" % (sha3, offered[0] if offered else "-", joinm(msgs[:shi[0] + 1]))])[1][0])
+        for e in d.ev:
+            if e[0] == "X" and field(e[3]) == "tls13HandshakeSecret" and e[4] != out.get("hs_salt"):
+                ck.spec_violation("derive:tls13/%04x/early-secret-for-handshake-secret" % suite,
+                                  "%s: the %s salted its Handshake Secret with %s; for the PSK the ServerHello selects (%s) RFC 8446 7.1 gives Derive-Secret(Early Secret, \"derived\") = %s" % (
+                                      name, "client" if e[3][0] == "c" else "server", e[4], "the offered one" if out.get("sel") == "1" else "none: all-zero PSK", out.get("hs_salt")),
+                                  {"harness": "h_tlskeys", "script": script, "scenario": [name, script, applist], "observed": e[4], "expected_by_spec": out.get("hs_salt"),
+                                   "what": "Early Secret in force for the Handshake Secret"})
+        return
+
+
 def process(ck, h, drv, table, scen, pay):
     t0 = time.time()
     rc, outs, err = ck.run_lines(h, [x[1] for x in scen] + [x[1] for x in pay], timeout=3000)
@@ -682,6 +753,7 @@ def process(ck, h, drv, table, scen, pay):
             s = Sess(name + ("#%d" % k if len(dumps) > 1 else ""), d, prev, ck.tier == "thorough", script, applist[k] if k < len(applist) else ())
             s.scen = [name, script, applist]
             if not s.done:
+                partial13_check(ck, drv, s, name, script, applist)
                 suite = int(re.search(r"suite=([0-9a-f]{4})", script).group(1), 16) if "suite=" in script else 0
                 if suite in table or suite in REQUIRED or "suite=" not in script:
                     ck.spec_violation("incomplete:%s" % s.name, "MatrixSSL<->MatrixSSL handshake did not complete in a mode both support (%s): client err %s, server err %s" % (
@@ -727,17 +799,19 @@ def process(ck, h, drv, table, scen, pay):
             ck.obligation("extracted model = extracted spec on %s" % s.name, False, detail=s.raw[s.raw.index("MODEL<>SPEC"):][:300])
         sp = s.spec
         mode = "%s %04x%s%s%s%s" % ({2: "TLS1.1", 3: "TLS1.2", 4: "TLS1.3"}[s.ver], s.suite, "" if getattr(s, "full", True) else " abbreviated",
-                                  " psk" if getattr(s, "psk", None) else "", " hrr" if getattr(s, "hrr", False) else "", " ems" if getattr(s, "ems", False) else "")
+                                  (" psk-%s-%s" % ("res" if getattr(s, "isres", 0) else "ext", "selected" if getattr(s, "selected", False) else "declined")) if getattr(s, "psk", None) else "", " hrr" if getattr(s, "hrr", False) else "", " ems" if getattr(s, "ems", False) else "")
         modes[mode] = modes.get(mode, 0) + 1
-        for what, lib, key in s.cmp:
+        for item in s.cmp:
+            what, lib, key = item[:3]; sig_override = item[3] if len(item) > 3 else None
             if key == "@reinit":
                 hl = 48 if s.hash == "sha384" else 32
                 extra_lines.append((s, what, "dg %s %s" % (s.hash, s.msgs[0].hex()), lib, "reinit:%d" % hl)); continue
-            exp = sp.get(key)
+            alts = [sp.get(k) for k in key.split("|")]
+            exp = lib if lib in alts else alts[0]
             cases.append("%s :: %s" % (s.name, what)); impl.append(lib); model.append(exp if exp is not None else "MISSING")
             ck.count("value:" + re.sub(r"^[cs] ", "", what).split(" (")[0])
             if exp != lib:
-                ck.spec_violation("value:%s:%s" % (mode, re.sub(r"^[cs] ", "", what)),
+                ck.spec_violation(sig_override or "value:%s:%s" % (mode, re.sub(r"^[cs] ", "", what)),
                                   "%s: %s is %s in the library, the RFC transcription derives %s from the same inputs" % (s.name, what, lib, exp),
                                   {"harness": "h_tlskeys", "script": s.script, "scenario": s.scen, "driver_line": s.line[:4000], "observed": lib, "expected_by_spec": exp, "what": what})
         for i, (what, expect, aux) in enumerate(s.recs_expect):
@@ -769,7 +843,7 @@ def process(ck, h, drv, table, scen, pay):
                 ck.spec_violation("record:%s:application bytes" % mode, "%s: the %d application bytes %s sent are not what the spec recovers from the records (%d bytes)" % (s.name, len(s.stream[sd]), sd, len(acc)),
                                   {"harness": "h_tlskeys", "script": s.script, "scenario": s.scen, "observed": len(acc), "expected_by_spec": len(s.stream[sd])})
         # PSK chain: the PSK of a resumed TLS 1.3 session must be the one the spec derives from the predecessor's tickets
-        if s.ver == 4 and getattr(s, "psk", None):
+        if s.ver == 4 and getattr(s, "psk", None) and getattr(s, "isres", 0):
             cand = s.prev.spec.get("psks", []) if s.prev else []
             cases.append("%s :: resumption PSK = HKDF-Expand-Label(res_master, \"resumption\", ticket_nonce)" % s.name); impl.append(s.psk); model.append(s.psk if s.psk in cand else ",".join(cand) or "none")
             if s.psk not in cand:
